@@ -1,16 +1,18 @@
 """C10 obligations (DESIGN.md C10)."""
-BASE = dict(src="counters.c", include=["asmallg.c"], units=["asmsub.c", "asmdef.c"], stubs=["diag.c", "fmt_off.c"],
+BASE = dict(backends=["cadical", "z3", "cvc5"], src="counters.c", include=["asmallg.c"], units=["asmsub.c", "asmdef.c", "strcomp.c", "dynstr.c"], stubs=["diag.c", "fmt_off.c"],
             functions=["asmallg.c:CodeORG", "CodeORG_Core", "CodeRORG", "CodeALIGN", "CodePHASE", "CodeDEPHASE", "SetNSeg", "CodeSAVE", "CodeRESTORE",
                        "asmsub.c:ProgCounter", "asmsub.c:EProgCounter", "asmsub.c:Granularity", "asmsub.c:BookKeeping"],
             assumes=["argument values arrive through a stub evaluator (arbitrary 64-bit values, evaluation succeeds)", "as.c WriteCode cut to its contract (PC += CodeLen), verified separately in C04 writecode",
                      "ChkPC accepts every address; CPU unchanged across SAVE/RESTORE; use list and debug info off", "segments: CODE (byte-granular) and DATA (word-granular)"])
 OBLIGATIONS = [
-    dict(BASE, name="counters_k2", defs=["K=2", "STRINGSIZE=16"], unwind=10, unwind_fn={"harness": 16}, bounds="all sequences of 2 operations, arbitrary arguments, any address below 2^32 - 65536", timeout=1500),
-    dict(BASE, name="counters_k3", defs=["K=3", "STRINGSIZE=16", "ALIGN_BELOW_2G"], tier="thorough", unwind=10, unwind_fn={"harness": 16},
-         bounds="all sequences of 3 operations from {ORG, RORG, ALIGN n, PHASE, DEPHASE, SEGMENT, SAVE, RESTORE, emit 1..8, reserve 1..65536}, arbitrary 64-bit arguments (ALIGN: 1..65535, address < 2^31)",
-         timeout=1500),
-    dict(BASE, name="align_32bit", defs=["K=1", "STRINGSIZE=16"], unwind=10, unwind_fn={"harness": 16},
-         bounds="one ALIGN at any address below 2^32 - 65536 (other operations included at K=1)", timeout=600),
+    dict(BASE, name="counters_k3", defs=["K=3", "STRINGSIZE=16", "NO_ALIGN"], unwind=10, unwind_fn={"harness": 16}, timeout=1500,
+         bounds="all sequences of 3 operations from {ORG, RORG, PHASE, DEPHASE, SEGMENT, SAVE, RESTORE, emit 1..8, reserve 1..65536}, arbitrary 64-bit arguments"),
+    dict(BASE, name="counters_k4", defs=["K=4", "STRINGSIZE=16", "NO_ALIGN"], unwind=10, unwind_fn={"harness": 16}, timeout=3000, tier="thorough",
+         bounds="all sequences of 4 operations (as counters_k3)"),
+    dict(BASE, name="align_low", defs=["K=1", "STRINGSIZE=16", "ALIGN_ONLY", "ALIGN_NMAX=255", "ALIGN_BASE=0ull"], unwind=10, unwind_fn={"harness": 16}, timeout=900,
+         bounds="ALIGN n, n 0..255, address 0..65535"),
+    dict(BASE, name="align_2g", defs=["K=1", "STRINGSIZE=16", "ALIGN_ONLY", "ALIGN_NMAX=255", "ALIGN_BASE=0x7fff8000ull"], unwind=10, unwind_fn={"harness": 16}, timeout=900,
+         bounds="ALIGN n, n 0..255, address $7FFF8000..$80007FFF (straddles 2^31)"),
 ]
 META = dict(outside=["STRUCT/UNION field and length symbols (symbol-table strings)", "per-target ChkPC limits", "listing state in SAVE/RESTORE", "SEGMENT name parsing (DecodeSegment)"],
             assumptions=["malloc never fails"])
